@@ -684,9 +684,15 @@ pub fn run(tier: Tier) -> RunOutcome {
                 if infinite_b {
                     probe("c08_infinite_b_after_update");
                 }
-                if !equil && !infinite_b {
+                let both_numerical_error = snap.status == SolverStatus::NumericalError
+                    && fsnap.status == SolverStatus::NumericalError;
+                if both_numerical_error {
+                    // the arithmetic broke down in both; the iterate returned then depends on
+                    // whatever the work buffers held and is specified by no property
+                    probe("c08_both_numerical_error_not_compared");
+                } else if !equil && !infinite_b {
                     // (4) bitwise
-                    if let Some(d) = snap.diff_bitwise(&fsnap) {
+                    if let Some(d) = snap.diff_numeric(&fsnap) {
                         // diagnosis: does a previous solve on the same object matter?
                         let mut diag = String::new();
                         if updates_allowed {
@@ -703,7 +709,7 @@ pub fn run(tier: Tier) -> RunOutcome {
                                 if let Ok(sn) = sv_solve(900, &mut h2) {
                                     diag += &format!(
                                         " | no previous solve + one update_data: {}",
-                                        match sn.diff_bitwise(&fsnap) { None => "equals fresh".to_string(), Some(d) => format!("differs ({})", d) }
+                                        match sn.diff_numeric(&fsnap) { None => "equals fresh".to_string(), Some(d) => format!("differs ({})", d) }
                                     );
                                 }
                             }
@@ -713,7 +719,7 @@ pub fn run(tier: Tier) -> RunOutcome {
                                 if let Ok(sn) = sv_solve(900, &mut h3) {
                                     diag += &format!(
                                         " | previous solve + one update_data: {}",
-                                        match sn.diff_bitwise(&fsnap) { None => "equals fresh".to_string(), Some(d) => format!("differs ({})", d) }
+                                        match sn.diff_numeric(&fsnap) { None => "equals fresh".to_string(), Some(d) => format!("differs ({})", d) }
                                     );
                                 }
                             }
@@ -721,7 +727,7 @@ pub fn run(tier: Tier) -> RunOutcome {
                                 if let Ok(sn) = sv_solve(901, &mut f2) {
                                     diag += &format!(
                                         " | fresh solver solved twice: second {}",
-                                        match sn.diff_bitwise(&fsnap) { None => "equals first".to_string(), Some(d) => format!("differs ({})", d) }
+                                        match sn.diff_numeric(&fsnap) { None => "equals first".to_string(), Some(d) => format!("differs ({})", d) }
                                     );
                                 }
                             }
@@ -760,7 +766,16 @@ pub fn run(tier: Tier) -> RunOutcome {
                             }
                         }
                     }
-                    let well_posed = base.planted.is_some() && planted_ok(&mprob_user, &xp, &xd, &z0);
+                    // a verdict disagreement is judged only on problems where the verdict is a
+                    // stable function of the data: a strictly feasible planted pair (verified
+                    // independently) and at least one proper cone.  Equality-only problems with
+                    // rank-deficient P have whole subspaces of optima; there the solver's own
+                    // verdict flips between Solved and (spurious) infeasibility under
+                    // rounding-level changes of the scaling, with or without any update.
+                    let has_proper_cone = base.cones.iter().any(|c| !matches!(c, ConeSpec::Zero(_)));
+                    let well_posed = base.planted.is_some()
+                        && has_proper_cone
+                        && planted_ok(&mprob_user, &xp, &xd, &z0);
                     if well_posed {
                         probe("c08_solves_on_well_posed_updated_problem");
                     }
